@@ -25,6 +25,12 @@ Definition xidle_ok (z : xsys) : Prop :=
   n_chain (z_node z) = C /\ n_reserve (z_node z) = new ++ rest /\ n_open (z_node z) = true /\ n_stalled (z_node z) = false /\
   n_out (z_node z) = [].
 
+Lemma cps_ok_app' : cps_ok gid C' cps.
+Proof.
+  intros c Hc. destruct (Hcps c Hc) as (i & Ei & Hn). exists i. split; [exact Ei|].
+  unfold cids in *. rewrite map_app, app_comm_cons. rewrite nth_error_app1; [exact Hn|]. apply nth_error_Some. congruence.
+Qed.
+
 Lemma xno_checkpoint_above : least_above cps (Z.of_nat (length C)) = None.
 Proof.
   destruct (least_above cps (Z.of_nat (length C))) as [[H cid]|] eqn:El; [|reflexivity]. exfalso.
@@ -52,7 +58,7 @@ Proof.
   assert (HG': Good gid C' (length C) (e_store st)) by (apply (good_ext gid C new cap Hcap Hnewcap); assumption).
   assert (Hkm: (length C + length new <= length C')%nat) by (rewrite new_len; lia).
   assert (Hnxok: nx_ok gid C' (cur_nx (e_cur st)) (length C) (length new)) by (rewrite Hnx, xno_checkpoint_above; exact I).
-  destruct (eloop_linear cfg gid C' cap HC' Hcap (length new) (length C) (e_store st) (e_cur st) O 0 Hkm HG' Hnxok) as (s' & HGs & Eloop).
+  destruct (eloop_linear cfg gid C' cap HC' cps_ok_app' Hcap (length new) (length C) (e_store st) (e_cur st) O 0 Hkm HG' Hnxok) as (s' & HGs & Eloop).
   rewrite skipn_ext, firstn_all in Eloop.
   assert (Ereach: reached (cur_nx (e_cur st)) (length C) (length new) = false) by (rewrite Hnx, xno_checkpoint_above; reflexivity).
   rewrite Ereach in Eloop. cbn [Nat.add] in Eloop.
